@@ -257,6 +257,9 @@ type sioTiming struct {
 	PipeLat     time.Duration // latency of the new transport, per frame
 	EmitAt      time.Duration // the emitters start this long after the upgrade began
 	Gap         time.Duration // pause between two events of one emitter
+	// Fault: index into faults (0 = none): the upgrade attempt fails or stalls on the candidate transport; under
+	// Socket.IO the connection keeps working on polling all the same (only "stays-polling" faults are used here)
+	Fault int
 }
 
 // slowResponses delays the answers to GET requests (the in-flight poll of the mechanism list).
@@ -323,6 +326,7 @@ func sioScenario(name string, natt []int, tm sioTiming, bound int) *vx.Scenario 
 		eioSrv := srv.VerifEIOServer()
 		ccb, scb := transport.NewCallbacks(), transport.NewCallbacks()
 		d := vrig.NewDuplex(ccb, scb)
+		faults[tm.Fault].set(d)
 		d.Latency = tm.PipeLat
 		respLat = tm.PollRespLat
 		d.OnClientHandshake = func() {
@@ -387,6 +391,13 @@ func sioScenario(name string, natt []int, tm sioTiming, bound int) *vx.Scenario 
 			}
 			cmp("server", srvGot, wantSrv)
 			cmp("client", cliGot, wantCli)
+			if tm.Fault != 0 {
+				if len(discS)+len(discC) > 0 {
+					r.Violate("upgrade under Socket.IO: an upgrade attempt that failed ("+faults[tm.Fault].name+") closed the connection", "disconnects: server %v client %v; client errors %v; server handlers saw %v, client handlers saw %v", discS, discC, cliErrs, srvGot, cliGot)
+				}
+				r.Outcome = fmt.Sprintf("srv=%v cli=%v disc=%v/%v", srvGot, cliGot, discS, discC)
+				return r
+			}
 			if len(discS)+len(discC) > 0 {
 				r.Violate("upgrade under Socket.IO: connection closed by a fault-free upgrade", "disconnects: server %v client %v; client errors %v", discS, discC, cliErrs)
 			}
@@ -472,6 +483,17 @@ func scenarios(tier string) []*vx.Scenario {
 				}
 				s = append(s, sc)
 			}
+		}
+	}
+	// upgrade attempts that fail or stall, under Socket.IO: events before and long after the attempt (10 s: the
+	// upgrade timeout of 5 s has passed) are delivered and nobody is disconnected
+	for fi := 1; fi <= 5 && fi < len(faults); fi++ {
+		if faults[fi].expect != "stays-polling" {
+			continue
+		}
+		for _, at := range []time.Duration{0, 10 * time.Second} {
+			tm := sioTiming{PipeLat: L, EmitAt: at, Fault: fi}
+			s = append(s, sioScenario(fmt.Sprintf("socket.io/failed-upgrade/%s/emit-at=%v", faults[fi].name, at), []int{1, 0}, tm, 0))
 		}
 	}
 	// bursts of 70 events each way at every half L of the upgrade (more than any batch size an implementation might
